@@ -448,7 +448,7 @@ func verifC21TmplWord(r *verifutil.Rand, env, osenv []verifC21KV, hostile bool) 
 }
 
 func verifC21Gen(r *verifutil.Rand, i int, thorough bool) []string {
-	return append([]string{"reset"}, verifC21Gen1(r, i, thorough)...)
+	return verifC21Gen1(r, i, thorough) // props/C21.json says "stateless": every op is its own history
 }
 
 func verifC21Gen1(r *verifutil.Rand, i int, thorough bool) []string {
